@@ -10,6 +10,7 @@ from typing import Dict, List, Optional, Set, Tuple
 from sa.jsonkeys import ReaderInfo, reader_info
 from sa.loader import AnalysisError, Unsupported, dotted_name, norm_text
 from sa.report import where
+from sa.members import self_attr
 from sa.util import backward_slice, local_assignments
 
 CLI = 'torchtree.cli'
@@ -1274,3 +1275,248 @@ def run(ctx, rep):
             f(ctx, rep)
         except Unsupported as u:
             rep.undecided(rule, f.__name__, f"line {getattr(u.node, 'lineno', 0)}", str(u))
+    check_bounds_do_not_depend_on_data(ctx, rep)
+    rep.rule('C19.I', "requested initial values reach the emitted specification in a form the reader accepts: a list-valued 'tensor' is never left next to a 'full' size")
+    check_list_tensor_next_to_full(ctx, rep)
+    rep.rule('C19.N', "the initial value written for a parameter that a density divides by is never exactly zero, for any combination of options")
+    check_initial_values_off_singularities(ctx, rep)
+
+
+BOUND_POSITIVE = """
+def create_ratio_tree_model(id_, newick, ratios, root_height, offset, **kwargs):
+    root_height = Parameter.json_factory(f"{id_}.root_height", **{"tensor": root_height})
+    if offset > 0.0:
+        root_height[CONSTRAINT.LOWER.value] = offset
+    if arg.categories > 1:
+        shape[CONSTRAINT.LOWER.value] = 0.0
+    return root_height
+"""
+
+
+def bounds_under_data_tests(tree):
+    """stores `P[CONSTRAINT.X.value] = v` that sit under an ordering comparison (`<`, `<=`, `>`, `>=`) of values that are not command-line options: whether the parameter gets its
+    bound — and with it its transform and its Jacobian term — then depends on the data (for instance on whether the oldest tip has age zero)"""
+    out = []
+    for st in ast.walk(tree):
+        if not (isinstance(st, ast.Assign) and any(isinstance(x, ast.Subscript) and 'CONSTRAINT' in ast.unparse(x.slice) for tg in st.targets for x in ast.walk(tg))):
+            continue
+        p_ = getattr(st, '_parent', None)
+        while p_ is not None and not isinstance(p_, ast.FunctionDef):
+            if isinstance(p_, ast.If):
+                for cmp_ in ast.walk(p_.test):
+                    if isinstance(cmp_, ast.Compare) and any(isinstance(o, (ast.Lt, ast.LtE, ast.Gt, ast.GtE)) for o in cmp_.ops) \
+                            and not any(isinstance(x, ast.Attribute) and isinstance(x.value, ast.Name) and x.value.id in ('arg', 'args') for x in ast.walk(cmp_)):
+                        out.append((st, p_.test))
+            p_ = getattr(p_, '_parent', None)
+    return out
+
+
+def check_bounds_do_not_depend_on_data(ctx, rep):
+    t = ast.parse(BOUND_POSITIVE)
+    for x in ast.walk(t):
+        for ch in ast.iter_child_nodes(x):
+            ch._parent = x
+    if len(bounds_under_data_tests(t)) != 1:
+        raise AnalysisError('C19.U self-check: the conditional bound of the embedded example is not recognised')
+    n = 0
+    for mname, m in sorted(ctx.prog.modules.items()):
+        if not mname.startswith('torchtree.cli'):
+            continue
+        stores = [st for st in ast.walk(m.tree) if isinstance(st, ast.Assign) and any(isinstance(x, ast.Subscript) and 'CONSTRAINT' in ast.unparse(x.slice) for tg in st.targets for x in ast.walk(tg))]
+        n += len(stores)
+        for st, test in bounds_under_data_tests(m.tree):
+            fn = st
+            while fn is not None and not isinstance(fn, ast.FunctionDef):
+                fn = getattr(fn, '_parent', None)
+            rep.bad('C19.U', f"{mname.replace('torchtree.', '')}::{fn.name if fn else '?'}::{norm_text(st)[:50]}::bound-does-not-depend-on-the-data", where(m, st), {'guard': norm_text(test)[:80]},
+                    f"`{norm_text(st)[:60]}` is only executed when `{norm_text(test)[:50]}`, a test on a value computed from the data rather than an option: for data on the other side "
+                    f"of the test the parameter is emitted without that bound, goes to the sampler / optimiser without its transform and its Jacobian term is missing from the target")
+    rep.ok('C19.U', 'cli::bounds-are-placed-by-options-not-by-data', '', {'constraint_stores': n})
+    if n < 40:
+        rep.incomplete('C19.U', 'bounds', '', f"only {n} constraint stores found in torchtree/cli")
+
+
+FULL_POSITIVE = """
+def create(id_, arg, alignment):
+    rates = Parameter.json_factory(f"{id_}.rates", **{"tensor": 1 / 6, "full": [6]})
+    if alignment is not None:
+        rates["tensor"] = (rel / rel.sum()).tolist()
+    freqs = Parameter.json_factory(f"{id_}.f", **{"tensor": 0.25, "full": [4]})
+    if arg.frequencies:
+        freqs["tensor"] = list(map(float, arg.frequencies.split(",")))
+        del freqs["full"]
+    return rates, freqs
+"""
+
+
+def list_tensor_next_to_full(fn):
+    """[(store, variable)]: a parameter specification created with a 'full' size gets a LIST as its 'tensor' while 'full' stays in it.  Parameter.from_json reads 'full' first and
+    calls torch.full(size, data['tensor']): with a list as fill value it raises — or, where the list is turned into a parameter of its own, the list is silently ignored."""
+    from sa.cfg import CFG
+    created = {}
+    for st in ast.walk(fn):
+        if isinstance(st, ast.Assign) and len(st.targets) == 1 and isinstance(st.targets[0], ast.Name) and isinstance(st.value, ast.Call):
+            has_full = any(isinstance(d, ast.Dict) and any(isinstance(k, ast.Constant) and k.value == 'full' for k in d.keys) for d in ast.walk(st.value))
+            created.setdefault(st.targets[0].id, []).append((st, has_full))
+    with_full = {v for v, fl in created.items() if any(h for _, h in fl)}
+    if not with_full:
+        return []
+
+    def listy(e):
+        if isinstance(e, (ast.List, ast.ListComp)):
+            return True
+        if isinstance(e, ast.Call) and isinstance(e.func, ast.Name) and e.func.id == 'list':
+            return True
+        if isinstance(e, ast.Call) and isinstance(e.func, ast.Attribute) and e.func.attr == 'tolist':
+            return True
+        return False
+    out = []
+    try:
+        cfg = CFG(fn)
+    except Exception:
+        return []
+    for st in ast.walk(fn):
+        if isinstance(st, ast.Assign) and len(st.targets) == 1 and isinstance(st.targets[0], ast.Subscript) and isinstance(st.targets[0].value, ast.Name) \
+                and st.targets[0].value.id in with_full and isinstance(st.targets[0].slice, ast.Constant) and st.targets[0].slice.value == 'tensor' and listy(st.value):
+            v = st.targets[0].value.id
+            dels = []
+            for nd in cfg.stmt_nodes():
+                s2 = nd.stmt
+                if isinstance(s2, ast.Delete) and any(isinstance(t, ast.Subscript) and isinstance(t.value, ast.Name) and t.value.id == v and isinstance(t.slice, ast.Constant)
+                                                      and t.slice.value == 'full' for t in s2.targets):
+                    dels.append(nd)
+                if isinstance(s2, ast.Expr) and isinstance(s2.value, ast.Call) and isinstance(s2.value.func, ast.Attribute) and s2.value.func.attr == 'pop' \
+                        and isinstance(s2.value.func.value, ast.Name) and s2.value.func.value.id == v and s2.value.args and isinstance(s2.value.args[0], ast.Constant) and s2.value.args[0].value == 'full':
+                    dels.append(nd)
+            try:
+                node = cfg.node_of(st)
+                cnodes = [(cfg.node_of(c_), h_) for c_, h_ in created[v]]
+            except KeyError:
+                continue
+            # reached by a creation that carries 'full' (the other creations of the same name cut the path)
+            kills = {cn.id for cn, _ in cnodes}
+            reached = any(h_ and node.id in cfg.reachable_after(cn, kills - {cn.id}) for cn, h_ in cnodes)
+            if not reached:
+                continue
+            ok = bool(dels) and (cfg.must_pass(node, cfg.exit, dels) or any(cfg.dominates(d, node) for d in dels))
+            if not ok:
+                out.append((st, v))
+    return out
+
+
+def check_list_tensor_next_to_full(ctx, rep):
+    t = ast.parse(FULL_POSITIVE).body[0]
+    for x in ast.walk(t):
+        for ch in ast.iter_child_nodes(x):
+            ch._parent = x
+    got = [v for _, v in list_tensor_next_to_full(t)]
+    if got != ['rates']:
+        raise AnalysisError(f"C19.I self-check: the embedded example gives {got}")
+    n = 0
+    for mname, m in sorted(ctx.prog.modules.items()):
+        if not mname.startswith('torchtree.cli'):
+            continue
+        for fn in ast.walk(m.tree):
+            if not isinstance(fn, ast.FunctionDef):
+                continue
+            n += 1
+            for st, v in list_tensor_next_to_full(fn):
+                rep.bad('C19.I', f"{mname.replace('torchtree.', '')}::{fn.name}::{norm_text(st)[:50]}::list-valued-tensor-next-to-full", where(m, st), {'variable': v},
+                        f"{fn.name}: `{norm_text(st)[:60]}` gives the specification `{v}` a list of values while its 'full' size stays in it: Parameter.from_json reads 'full' first and "
+                        f"calls torch.full(size, <that list>), which raises (hmc / mcmc / map) — or the variational builders turn it into a parameter filled with the scalar default and "
+                        f"the requested values are silently ignored (advi)")
+    rep.ok('C19.I', 'cli::a-list-valued-tensor-replaces-the-full-specification', '', {'functions_scanned': n})
+
+
+def divisor_attributes(ctx):
+    """{attribute name: [class.method]}: attributes `self.A` that a density of the evolution package divides by (directly, or inside a product in the denominator) — a value
+    of exactly zero there makes the density NaN / infinite"""
+    out = {}
+    for mname in ('torchtree.evolution.coalescent', 'torchtree.evolution.birth_death', 'torchtree.evolution.bdsk'):
+        m = ctx.prog.module(mname)
+        for cname, cnode in m.classes.items():
+            for fn in cnode.body:
+                if not (isinstance(fn, ast.FunctionDef) and fn.name in ('log_prob', '_call')):
+                    continue
+                for x in ast.walk(fn):
+                    if isinstance(x, ast.BinOp) and isinstance(x.op, ast.Div):
+                        for y in ast.walk(x.right):
+                            a = self_attr(y) if isinstance(y, ast.Attribute) else None
+                            if a and not a.startswith('_'):
+                                out.setdefault(a, []).append(f"{cname}.{fn.name}")
+    return out
+
+
+def check_initial_values_off_singularities(ctx, rep):
+    """C19.N — the initial value the CLI writes for a parameter that a density divides by is never exactly zero, whatever the options: the target and its gradient are NaN at
+    such a starting point and no sampler or optimiser leaves it."""
+    div = divisor_attributes(ctx)
+    if 'growth' not in div:
+        raise AnalysisError(f"divisor inference no longer finds ExponentialCoalescent.growth (found {sorted(div)})")
+    n = 0
+    for mname, m in sorted(ctx.prog.modules.items()):
+        if not mname.startswith('torchtree.cli'):
+            continue
+        for fn in ast.walk(m.tree):
+            if not isinstance(fn, ast.FunctionDef):
+                continue
+            assigns = {}
+            for st in ast.walk(fn):
+                if isinstance(st, ast.Assign) and len(st.targets) == 1 and isinstance(st.targets[0], ast.Name):
+                    assigns.setdefault(st.targets[0].id, []).append(st.value)
+
+            def constants(e, depth=0):
+                if isinstance(e, ast.Constant) and isinstance(e.value, (int, float)) and not isinstance(e.value, bool):
+                    return {float(e.value)}
+                if isinstance(e, (ast.List, ast.Tuple)):
+                    out = set()
+                    for x in e.elts:
+                        c_ = constants(x, depth)
+                        if c_ is None:
+                            return None
+                        out |= c_
+                    return out
+                if isinstance(e, ast.IfExp):
+                    a, b = constants(e.body, depth), constants(e.orelse, depth)
+                    return None if a is None or b is None else a | b
+                if isinstance(e, ast.Name) and e.id in assigns and depth < 4:
+                    out = set()
+                    for v in assigns[e.id]:
+                        c_ = constants(v, depth + 1)
+                        if c_ is None:
+                            return None
+                        out |= c_
+                    return out
+                return None
+            for c in ast.walk(fn):
+                if not (isinstance(c, ast.Call) and (dotted_name(c.func) or '').endswith('Parameter.json_factory') and c.args):
+                    continue
+                idt = c.args[0]
+                last = None
+                if isinstance(idt, ast.JoinedStr) and idt.values and isinstance(idt.values[-1], ast.Constant):
+                    last = str(idt.values[-1].value).split('.')[-1]
+                elif isinstance(idt, ast.Constant) and isinstance(idt.value, str):
+                    last = idt.value.split('.')[-1]
+                if last not in div:
+                    continue
+                tv = None
+                for k in c.keywords:
+                    if k.arg is None and isinstance(k.value, ast.Dict):
+                        for kk, vv in zip(k.value.keys, k.value.values):
+                            if isinstance(kk, ast.Constant) and kk.value == 'tensor':
+                                tv = vv
+                    if k.arg == 'tensor':
+                        tv = k.value
+                if tv is None:
+                    continue
+                vals = constants(tv)
+                n += 1
+                key = f"{mname.replace('torchtree.', '')}::{fn.name}::{last}-starts-off-the-singularity"
+                if vals is None:
+                    rep.excluded('C19.N', key, where(m, c), 'initial value computed at run time (from data or a free-form option)')
+                    continue
+                rep.check('C19.N', key, 0.0 not in vals, where(m, c), {'possible_initial_values': sorted(vals), 'divided_by_in': sorted(set(div[last]))[:4]},
+                          f"{fn.name}: the parameter `…{last}` can be emitted with the initial value 0 (possible values {sorted(vals)}), but {sorted(set(div[last]))[:2]} divide by it: the "
+                          f"density and its gradient are NaN at the starting point")
+    if n < 3:
+        rep.incomplete('C19.N', '*', '', f"only {n} initial values of divisor parameters found")
